@@ -11,10 +11,10 @@
   * The ring buffer itself is a ghost component `Ring` (`pend` = runes between `start` and
     `end`, `held` = runes behind `start` that are still physically in the 4 slots, `sound` =
     no `UnreadRune` so far stepped over more than the buffer holds).  The ghost component never
-    influences the tokens; `Proofs/LexerRing.lean` proves that `sound` is never lost and that the
+    influences the tokens; `Proofs/LexerSpec.lean` proves that `sound` is never lost, `Proofs/LexerRing.lean` that the
     concrete Go ring buffer (`RuneRing`, modulo-4 indices) refines the zipper while `sound` holds.
   * Unbounded loops / recursion take fuel; `Err.fuel` is "out of fuel" and is proved unreachable
-    for the fuel `Token` supplies (`Proofs/LexerProgress.lean`).
+    for the fuel `Token` supplies (`Proofs/LexerSpec.lean`).
   * `io.EOF` is the only reader error (the underlying reader is a list).
   * Character classes: ASCII is spelled out here; for code points ≥ 0x80 the Go code consults the
     tables of package `unicode` — an oracle parameter `Cfg` (the driver instantiates it with the
@@ -131,7 +131,7 @@ structure Ring where
 /-- effect of `ReadRune` on the ring: a pushed-back rune is served from the buffer (`pend-1`,
     `held+1`), otherwise a rune is fetched from the reader, `put` (overwriting the oldest slot) and
     `get` (`held+1`, at most 4).  Both cases in one formula — they coincide because
-    `held + pend ≤ 4` (there are 4 slots), see `Ring.read_cases` in Proofs/LexerRing.lean -/
+    `held + pend ≤ 4` (there are 4 slots), checked against the modulo-4 code in Proofs/LexerRing.lean -/
 def Ring.read (g : Ring) : Ring :=
   { g with pend := g.pend - 1, held := min (g.held + 1) 4 }
 
@@ -614,7 +614,7 @@ mutual
         else commentText fuel true l1
 end
 
-/-- fuel that always suffices for one `Token` call (proved in Proofs/LexerProgress.lean): every
+/-- fuel that always suffices for one `Token` call (proved in Proofs/LexerSpec.lean): every
     recursive call of the model is preceded by reading a rune, and a token looks at most 3 runes
     ahead -/
 def tokenFuel (l : Lexer) : Nat := 2 * l.rest.length + 8
